@@ -7,20 +7,28 @@ ID = "C16"
 LEVEL = "other"
 DRIVER = "driver_lp"
 LEAN_MODULES = ["AllfedModel.Props.C16"]
-OBLIGATIONS = ["Allfed.C16." + n for n in ["zero_charge_feasible_no_seaweed", "objective_bounded"]]
+OBLIGATIONS = ["Allfed.C16." + n for n in ["zero_charge_feasible_no_seaweed", "objective_bounded", "round2_feasible_of_round1",
+                                            "round2_seaweed_pin_infeasible_before_fix"]]
 LEVEL_TEXT = ("other / partial. A finite grid of concrete executions of the real pipeline and solver (164 countries x the enumerated presets): each run must complete, pass the model's own "
-              "validators and report a finite, non-negative percent fed. Lean adds, for all inputs: the zero-charge rounds' LP (no seaweed) has a feasible point and a bounded objective, so a "
-              "failure there can only be numerical; and the quantities the built-in validators test are implied by C01/C03/C04 for exact solutions. Completion of a CBC solve is runtime "
+              "validators and report a finite, non-negative percent fed. Lean adds, for all inputs: the zero-charge rounds' LP (no seaweed) has a feasible point and a bounded objective, and the "
+              "feed-maximising round has a feasible point whenever the human-maximising round before it had one and the pinned minimum consumption lies within what that round ate "
+              "(round2_feasible_of_round1; false for the formulation before the seaweed-pin repair: round2_seaweed_pin_infeasible_before_fix), so a failure there can only be numerical; and the quantities the built-in validators test are implied by C01/C03/C04 for exact solutions. Completion of a CBC solve is runtime "
               "behaviour no model can exhibit; the quick tier runs a seeded rotating subset, the thorough tier the whole grid.")
 LEVEL_NOTE = ("Trusted: the harness running the real ScenarioRunner in worker processes from a scratch copy; presets are read from the shipped YAML files and from the AST of plot_manuscript_figures.py. "
               "A theorem cannot decide this property (solver completion): it is decided by executing the grid; quick = subset.")
-TECHNIQUE = "grid execution of the real pipeline (decides the property) + Lean 4 feasibility/boundedness lemma for the zero-charge rounds"
+TECHNIQUE = "grid execution of the real pipeline (decides the property) + Lean 4 feasibility theorems for the zero-charge round and for round 2 after round 1"
 RULE = ("grid = countries of the shipped table x presets {simulations of the three shipped YAML files; the option sets built by plot_manuscript_figures.py (figure 1: ten sets, figure 2: two); "
         "single-option variations of the nuclear-winter/resilient-foods preset, one per value of each option family}; quick = seeded sample; a case = one full three-round run; "
         "non-trivial = the run reached the optimiser; distinct = (country, preset)")
 EXPLANATION = ("Executes the real pipeline for (country, preset) pairs and records exceptions, validator failures and non-finite or negative results. "
                "Known failing pairs are listed in known_findings.json keyed by (country, preset family).")
 ASSUMPTIONS = ["world aggregate (scale=global) is run in the thorough tier only", "the code's own alter_scenario_if_known_to_fail rewrites are part of the behaviour under test"]
+
+
+CORPUS = [("CMR", "variation:shutoff=continued_after_10_percent_fed"), ("CMR", "variation:shutoff=long_delayed_shutoff_after_10_percent_fed"),
+          ("ECU", "variation:intake_constraints=disabled_for_humans"), ("ECU", "variation:shutoff=continued_after_10_percent_fed"),
+          ("ECU", "variation:shutoff=long_delayed_shutoff_after_10_percent_fed"), ("SLV", "variation:shutoff=continued_after_10_percent_fed"),
+          ("SLV", "variation:shutoff=long_delayed_shutoff_after_10_percent_fed"), ("SLV", "variation:shutoff=one_month_delayed_shutoff")]
 
 
 def yaml_presets(repo):
@@ -128,6 +136,11 @@ def grid(ctx):
     isos = sorted(pipeline.country_rows())
     jobs = []
     if ctx.quick:
+        # regression corpus first: the (country, preset) pairs that did not complete before the seaweed-pin repair (DESIGN.md §13.4 D16)
+        byname = {p[0]: p for p in presets}
+        for iso, name in CORPUS:
+            if name in byname and iso in isos:
+                jobs.append((iso, name, byname[name][1]))
         # the designated countries of each YAML file's first simulation, then a seeded rotating sample
         seen = set()
         for name, o, countries in presets:
